@@ -15,7 +15,9 @@ func (ex *Exec) callBuiltin(name string, args []Val, c *ssa.CallCommon) Val {
 	case "len":
 		switch x := args[0].(type) {
 		case Str:
-			ex.needBytes(x, "len")
+			if x.hasRope() {
+				return ex.ropeLen(x)
+			}
 			return goInt(len(x.B))
 		case Slice:
 			return goInt(x.Len)
@@ -153,6 +155,15 @@ func (ex *Exec) callBuiltin(name string, args []Val, c *ssa.CallCommon) Val {
 	case "Slice":
 		switch sd := args[0].(type) {
 		case StrData:
+			if li, ok := args[1].(Int); ok && li.T != nil && li.T.Op == "var" {
+				if r, ok := ex.ropeLens[li.T.Name]; ok && len(r.B) == len(sd.S.B) {
+					a := make([]Val, len(r.B))
+					for i := range a {
+						a[i] = r.B[i]
+					}
+					return Slice{A: &a, Len: len(a), Cap: len(a)}
+				}
+			}
 			n := ex.concInt(args[1], "unsafe.Slice length")
 			ex.needBytes(sd.S, "unsafe.Slice")
 			if n > len(sd.S.B) {
@@ -178,6 +189,34 @@ func (ex *Exec) callBuiltin(name string, args []Val, c *ssa.CallCommon) Val {
 	}
 	unsupported("builtin %s(%T)", name, args[0])
 	return nil
+}
+
+// ropeLen: the length of a string with formatted segments is a fresh variable
+// constrained to the possible range (a decimal segment has 1..20 bytes); it is
+// only good for handing the whole string on (unsafe.Slice in unsafeGetBytes).
+func (ex *Exec) ropeLen(x Str) Val {
+	lo, hi := 0, 0
+	for _, b := range x.B {
+		switch b.W {
+		case wDec:
+			lo++
+			hi += 20
+		case wOpaque:
+			unsupported("len of an opaque formatted string")
+		default:
+			lo++
+			hi++
+		}
+	}
+	name := fmt.Sprintf("rl%dw64", ex.nsym)
+	t := mkVar(name, 64, ex.nsym)
+	ex.nsym++
+	if ex.ropeLens == nil {
+		ex.ropeLens = map[string]Str{}
+	}
+	ex.ropeLens[name] = x
+	ex.addPC(mkAnd(mkCmp("bvuge", t, mkConst(uint64(lo), 64)), mkCmp("bvule", t, mkConst(uint64(hi), 64))))
+	return Int{T: t, W: 64, S: true}
 }
 
 // ---------------------------------------------------------------- conversions
